@@ -740,7 +740,33 @@ def _equal_location_candidate_order(sub, spec, clause, detail) -> bool:
     if clause in ("genbank_differs", "region_genbank_differs"):
         return bool(_AREA_FEATURE_LINES.match(where)) or where == "region./candidate_cluster_numbers"
     if clause == "results_json_differs":
-        return bool(_CANDIDATE_QUALIFIER.match(where)) or where.startswith("records[].areas[].candidates[]")
+        return bool(_CANDIDATE_QUALIFIER.match(where)) or where.startswith("records[].areas[].candidates")
+    return False
+
+
+@_sig
+def _hybrid_member_listed_twice(sub, spec, clause, detail) -> bool:
+    """ _find_hybrids walks `sorted(unassigned, key=core start)` - a set, ties in set order - from a bisected index and,
+        for a hybrid whose core crosses the origin, a second time from the start: depending on the tie order a contained
+        protocluster is appended to the group once or twice.  Circular record with protoclusters the comparison does not
+        order AND the areas differ only in a candidate listing one of its protoclusters twice (everything downstream of
+        that: the candidate's protocluster / product / rule lists and their renderings) """
+    if sub not in ("detect", "areas") or not spec.get("circular"):
+        return False
+    if "unordered_protoclusters" not in (detail.get("result_classes") or []):
+        return False
+    where = detail.get("where", "")
+    if clause == "areas_sets_differs":
+        return where.startswith("members_listed_twice")
+    if "areas_sets" not in (detail.get("upstream") or []) or "protoclusters" in (detail.get("upstream") or []):
+        return False
+    if clause == "areas_differs":
+        return where.startswith("candidates[].") or where.startswith("regions[].detection_rules")
+    if clause in ("genbank_differs", "region_genbank_differs"):
+        return (where.startswith("cand_cluster./") or where.startswith("region./rules")
+                or detail.get("kind") == "line_count")
+    if clause == "results_json_differs":
+        return bool(_CANDIDATE_QUALIFIER.match(where)) or where.startswith("records[].areas[].candidates")
     return False
 
 
@@ -1050,11 +1076,11 @@ def run(ctx) -> None:
     _POOL_SEEDS = seeds
     try:
         # shards=1: the pool of children is the parallelism; nothing is forked while the pipes are open
-        ctx.hyp("refine", refine_specs(), max_examples=ctx.pick(500, 12000), shards=1)
-        ctx.hyp("hmmer", hmmer_specs(), max_examples=ctx.pick(200, 4000), shards=1)
-        ctx.hyp("filter", filter_specs(), max_examples=ctx.pick(300, 6000), shards=1)
-        ctx.hyp("detect", detect_specs(), max_examples=ctx.pick(220, 5000), shards=1)
-        ctx.hyp("areas", areas_specs(), max_examples=ctx.pick(220, 5000), shards=1)
+        ctx.hyp("refine", refine_specs(), max_examples=ctx.pick(400, 4000), shards=1)
+        ctx.hyp("hmmer", hmmer_specs(), max_examples=ctx.pick(120, 1200), shards=1)
+        ctx.hyp("filter", filter_specs(), max_examples=ctx.pick(220, 2000), shards=1)
+        ctx.hyp("detect", detect_specs(), max_examples=ctx.pick(180, 2500), shards=1)
+        ctx.hyp("areas", areas_specs(), max_examples=ctx.pick(180, 3000), shards=1)
         ctx.extra["cases_showing_only_known_findings"] = {
             sub: {"cases": stats["cases"], "distinct_nontrivial": len(stats["nontrivial"]),
                   "classes": dict(sorted(stats["classes"].items()))}
